@@ -44,6 +44,7 @@ def fn_props(f):
 
 _COMMON_NAMES = {"new", "read", "write", "connect", "length", "from", "inner", "shutdown", "visit", "options", "next", "process", "get", "into", "clone", "len", "push"}
 _REACH_CACHE = {}
+_RECEIVERS = {"mcs": "src/core/mcs.rs", "x224": "src/core/x224.rs", "tpkt": "src/core/tpkt.rs", "global": "src/core/global.rs", "link": "src/model/link.rs", "stream": "src/model/link.rs"}
 
 
 def _call_graph(units):
@@ -82,6 +83,13 @@ def _call_graph(units):
                 continue
             if re.search(r"(?<![\w])%s\s*\(" % re.escape(name), body) or re.search(r"[.:]%s\s*(?:::<[^>]*>)?\(" % re.escape(name), body):
                 out.update(k2 for k2 in ks if k2 != k)
+        # method calls through a field / variable named after a layer: `self.mcs.read(`, `mcs.write(`, `self.transport.read(` ...
+        for recv, name in re.findall(r"\b(\w+)\s*\.\s*(\w+)\s*\(", body):
+            tgt = _RECEIVERS.get(recv)
+            if recv == "transport":
+                tgt = {"src/core/x224.rs": "src/core/tpkt.rs", "src/core/tpkt.rs": "src/model/link.rs"}.get(k[0])
+            if tgt:
+                out.update(k2 for k2 in byname.get(name, []) if k2[0] == tgt and k2 != k)
         calls[k] = out
     _REACH_CACHE["graph"] = (fns, calls)
     return fns, calls
@@ -239,6 +247,12 @@ def run_unit(unit, drop_hints=(), suffix=""):
             oc.undecided[q] = "%d proof hint(s) could not be placed (anchored statement no longer in the body) and the function does not verify without: %s" % (asm.dropped_hints[q], fail["msg"][:120])
             continue
         oc.failures.setdefault(q, []).append(fail)
+    if not (res.compile_error and (real_compile_error or not res.functions)):
+        # a diagnostic whose wording the classifier does not know must never disappear silently
+        for e in oc.other_errors:
+            ent = lm[e["line"] - 1] if e.get("line") and 0 < e["line"] <= len(lm) else None
+            q_ = (ent or {}).get("fn") or "<unit %s>" % unit.name
+            oc.undecided.setdefault(q_, "unclassified verifier diagnostic: %s" % (e.get("msg") or "")[:200])
     if res.compile_error and (real_compile_error or not res.functions):
         oc.status = "compile-error"
         oc.detail = "\n".join((e.get("rendered") or e.get("msg") or "")[:600] for e in (oc.other_errors or res.errors)[:5]) or res.raw_stderr[-1500:]
@@ -331,6 +345,7 @@ def check_property(prop, tier, units, specs, rebaseline=False, only_unit=None, s
     known = load_known()
     violations = []
     known_hits = []
+    foreign_known = []
     undecided = []
     inventory = []
     obligations = 0
@@ -388,10 +403,14 @@ def check_property(prop, tier, units, specs, rebaseline=False, only_unit=None, s
                 in_base = base is not None and q in base.get("verified", [])
                 hit = None
                 for k in known:
-                    if k.get("kind") == "finding" and k.get("property") == prop and k.get("fn") == q and re.search(k.get("obligation_re", "^$"), oid):
+                    if k.get("kind") == "finding" and k.get("fn") == q and re.search(k.get("obligation_re", "^$"), oid):
                         hit = k
                         break
-                if hit:
+                if hit and hit.get("property") != prop:
+                    # a recorded finding of ANOTHER property, reached here only because this property's functions call that function:
+                    # reported by that property's check, not counted (and not re-announced) here
+                    foreign_known.append(dict(property=hit.get("property"), obligation=oid))
+                elif hit:
                     known_hits.append((hit, oid))
                 elif not in_base:
                     undecided.append("%s: obligation %s fails but the function is not in the committed baseline of discharged obligations" % (q, oid))
@@ -402,7 +421,11 @@ def check_property(prop, tier, units, specs, rebaseline=False, only_unit=None, s
                 trusted.append(t)
         rewrites.extend("%s @ %s" % r for r in oc.asm.rewrites)
         if rebaseline:
-            ver = [inv["qname"] for inv in oc.asm.inventory if not inv["stub"] and inv["qname"] not in oc.failures and inv["qname"] not in oc.undecided]
+            def _known_only(q_):
+                # a function whose only failing obligations are recorded findings stays in the baseline (another failure in it is a violation)
+                fl_ = oc.failures.get(q_, [])
+                return bool(fl_) and all(any(k.get("kind") == "finding" and k.get("fn") == q_ and re.search(k.get("obligation_re", "^$"), obligation_id(q_, f_)) for k in known) for f_ in fl_)
+            ver = [inv["qname"] for inv in oc.asm.inventory if not inv["stub"] and (inv["qname"] not in oc.failures or _known_only(inv["qname"])) and inv["qname"] not in oc.undecided]
             json.dump(dict(unit=u.name, verified=sorted(ver), verus_verified=oc.res.verified, verus_errors=oc.res.failed, anchors=asm_mod.ANCHOR_OUT.get(u.name, {})),
                       open(os.path.join(VERIF, "baseline", u.name + ".json"), "w"), indent=1, sort_keys=True)
     # samples: a few obligations written out
@@ -494,7 +517,7 @@ def check_property(prop, tier, units, specs, rebaseline=False, only_unit=None, s
                             explanation=meta.get("scope", ""), functions_under_contract=fn_reports,
                             rewrites=sorted(set(rewrites)), unverified=unverified_notes, bounded=bounded, solver_stability=stability, sensitivity_selftest=selftest_res,
                             solver_s=round(solver_us / 1e6, 3), backends=["verus 0.2026.09.13 / z3"] + (["kani 0.68 / cbmc"] if bounded else []),
-                            known_findings=[dict(what=h.get("what"), obligation=o) for h, o in known_hits],
+                            known_findings=[dict(what=h.get("what"), obligation=o) for h, o in known_hits], known_findings_of_other_properties_on_the_call_path=foreign_known,
                             undecided=undecided, exhaustive=False),
               assumptions=meta.get("assumptions", []) + ["machine arithmetic is checked as fixed-width (overflow = failed obligation), not treated as mathematical"],
               wall_s=round(wall, 2), violations=len(seen))
